@@ -11,9 +11,15 @@
 (* The slave's timing is free, so the specification is a monitor over the  *)
 (* five channels: it tracks accepted requests and what is owed, and the    *)
 (* abstract register file.  Words are 32-bit sequences (index 1 = bit 0).  *)
-(* Register kinds: "word" (every byte stored), "upper16" (bits 31:16       *)
-(* stored, bits 15:0 read as the inverse of the stored field - the         *)
-(* hardware-driven Field of the wrapper).                                  *)
+(* Register kinds: "word" / "memword" (every byte stored), "upper16" (bits  *)
+(* 31:16 stored, bits 15:0 read as the inverse of the stored field - the   *)
+(* hardware-driven Field of the wrapper), "input" (read-only, shows a      *)
+(* hardware signal; writes change nothing), "output" (write-only, the      *)
+(* stored word drives a hardware signal; what a read returns is not        *)
+(* specified), "cnt" (bits 15:0 stored; bits 19:16 / 23:20 count the       *)
+(* completed reads / writes of the register through read / write           *)
+(* notifications: "hardware-side field updates and notifications occur     *)
+(* exactly when the corresponding access completes").                      *)
 (***************************************************************************)
 EXTENDS BitVec
 
@@ -25,8 +31,10 @@ Mapped(layout, a) == a \in DOMAIN layout
 
 ApplyWrite(layout, regs, wr) ==            \* wr = [a, d, s]
   IF ~Mapped(layout, wr.a) THEN regs       \* "accesses to unmapped addresses leave every register unchanged"
+  ELSE IF layout[wr.a] = "input" THEN regs     \* read-only
   ELSE LET merged == WithStrobe(regs[wr.a], wr.d, wr.s) IN
-       [regs EXCEPT ![wr.a] = IF layout[wr.a] \in {"word", "memword"} THEN merged
+       [regs EXCEPT ![wr.a] = IF layout[wr.a] \in {"word", "memword", "output"} THEN merged
+                              ELSE IF layout[wr.a] = "cnt" THEN [j \in 1..32 |-> IF j <= 16 THEN merged[j] ELSE 0]
                               ELSE [j \in 1..32 |-> IF j > 16 THEN merged[j] ELSE 0]]    \* only the writable field is stored
 
 \* agreement of an observed word with a specified one (unspecified bits match anything)
@@ -34,7 +42,10 @@ Agrees(spec, seen) == Len(spec) = Len(seen) /\ \A j \in 1..Len(spec) : spec[j] =
 
 ReadValue(layout, regs, a) ==
   IF ~Mapped(layout, a) THEN Zeros(32)
-  ELSE IF layout[a] \in {"word", "memword"} THEN regs[a]
+  ELSE IF layout[a] \in {"word", "memword", "input"} THEN regs[a]
+  ELSE IF layout[a] = "output" THEN AllU(32)
+  \* the counter fields are judged at rest (CountersOk): while accesses are in flight their value is between two counts
+  ELSE IF layout[a] = "cnt" THEN [j \in 1..32 |-> IF j <= 16 THEN regs[a][j] ELSE IF j <= 24 THEN 2 ELSE 0]
   ELSE [j \in 1..32 |-> IF j > 16 THEN regs[a][j] ELSE Not3(regs[a][j + 16])]
 
 RECURSIVE ApplyAll(_, _, _, _)
@@ -45,11 +56,16 @@ Possible(layout, regs, infl) == {ApplyAll(layout, regs, infl, k) : k \in 0..Len(
 \* ---- monitor
 \* m = [regs, aw (accepted addresses), w (accepted data beats), infl (complete writes awaiting B), ar (accepted reads awaiting R),
 \*      pb, pr (previous pre-edge view of the B / R channel), bage, rage]
-MonInit(layout) ==
+\* inputs : [address of an "input" register -> the word its hardware signal shows]
+MonInitWith(layout, inputs) ==
   \* a memory word without initial value is unspecified (2) until written
-  [regs |-> [a \in DOMAIN layout |-> IF layout[a] = "memword" THEN AllU(32) ELSE Zeros(32)], aw |-> << >>, w |-> << >>, infl |-> << >>, ar |-> << >>,
+  [regs |-> [a \in DOMAIN layout |-> IF layout[a] = "memword" THEN AllU(32) ELSE IF a \in DOMAIN inputs THEN inputs[a] ELSE Zeros(32)],
+   rdn |-> [a \in DOMAIN layout |-> 0], wrn |-> [a \in DOMAIN layout |-> 0], quiet |-> 0,
+   aw |-> << >>, w |-> << >>, infl |-> << >>, ar |-> << >>,
    pb |-> [valid |-> 0, ready |-> 1, resp |-> << >>], pr |-> [valid |-> 0, ready |-> 1, data |-> << >>, resp |-> << >>],
    bage |-> 0, rage |-> 0]
+
+MonInit(layout) == MonInitWith(layout, [a \in {} |-> Zeros(32)])
 
 \* obs = pre-edge view of all channels: [awv, awr, awa, wv, wr, wd, ws, bv, br, bresp, arv, arr, ara, rv, rr, rdata, rresp]
 \* -> "" or the name of the violated clause
@@ -80,7 +96,13 @@ MonStep(layout, m, obs) ==
       aw2 == IF awHS THEN Append(m.aw, obs.awa) ELSE m.aw
       w2 == IF wHS THEN Append(m.w, [d |-> obs.wd, s |-> obs.ws]) ELSE m.w
       pair == aw2 # << >> /\ w2 # << >>
+      bump(f, a) == IF a \in DOMAIN f THEN [f EXCEPT ![a] = @ + 1] ELSE f
+      busy == awHS \/ wHS \/ bHS \/ arHS \/ rHS \/ obs.awv = 1 \/ obs.wv = 1 \/ obs.arv = 1 \/ pair \/ infl1 # << >> \/ ar1 # << >> \/ aw2 # << >> \/ w2 # << >>
   IN [regs |-> regs1,
+      \* completed accesses per mapped register (a completed access = its response handshake)
+      rdn |-> IF rHS THEN bump(m.rdn, Head(m.ar).a) ELSE m.rdn,
+      wrn |-> IF bHS THEN bump(m.wrn, Head(m.infl).a) ELSE m.wrn,
+      quiet |-> IF busy THEN 0 ELSE m.quiet + 1,
       aw |-> IF pair THEN Tail(aw2) ELSE aw2,
       w |-> IF pair THEN Tail(w2) ELSE w2,
       infl |-> IF pair THEN Append(infl1, [a |-> Head(aw2), d |-> Head(w2).d, s |-> Head(w2).s]) ELSE infl1,
@@ -98,5 +120,13 @@ MonStep(layout, m, obs) ==
 \* the committed writes, plus possibly a prefix of the writes whose response is still owed
 PortsOk(layout, m, ports) ==      \* ports : [address -> word shown]
   \E r \in Possible(layout, m.regs, m.infl) : \A a \in DOMAIN ports :
-       Agrees(IF layout[a] \in {"word", "memword"} THEN r[a] ELSE [j \in 1..32 |-> IF j > 16 THEN r[a][j] ELSE 0], ports[a])
+       Agrees(IF layout[a] \in {"word", "memword", "output"} THEN r[a]
+              ELSE IF layout[a] = "cnt" THEN [j \in 1..32 |-> IF j <= 16 THEN r[a][j] ELSE 0]
+              ELSE [j \in 1..32 |-> IF j > 16 THEN r[a][j] ELSE 0], ports[a])
+
+\* "notifications occur exactly when the corresponding access completes": once the bus has been at rest for four clocks the
+\* counters driven by the read / write notifications show the number of completed accesses (modulo their 4 bits)
+\* cports : [address of a "cnt" register -> [rd, wr] (4-bit vectors shown on ports)]
+CountersOk(layout, m, cports) ==
+  m.quiet < 4 \/ \A a \in DOMAIN cports : cports[a].rd = FromInt(m.rdn[a] % 16, 4) /\ cports[a].wr = FromInt(m.wrn[a] % 16, 4)
 =============================================================================
